@@ -182,3 +182,13 @@ define %SV @f(%SV %x, i32* %b, %FV %i) {
 @c = global %"+7" zeroinitializer
 @d = global %pair zeroinitializer
 declare void @f(%"007"*, %"7"*, %"-7"*, %7*)
+;;; ATOM types/quoted-digit-names-leading-zeros
+%"007" = type { i32 }
+%"7" = type { i64 }
+%"0" = type { i8 }
+%"00" = type { i16 }
+%pair = type { %"007", %"7", %"0"*, %"00" }
+@a = global %"007" zeroinitializer
+@b = global %"7" zeroinitializer
+@c = global %"00" zeroinitializer
+declare void @f(%"007"*, %"7"*, %"0"*)
